@@ -17,7 +17,14 @@ forms `sys.step_response(...)`; (b) multi-step *histories* on response objects (
 reads of every property / tuple unpacking / indexing interleaved with changes of the squeeze
 setting by the three routes (copy `resp(squeeze=...)`, attribute assignment, package default)
 and of transpose / return_x / return_magphase; every read is compared with the model's reading
-for the settings in force at that read (`HState.run`)."""
+for the settings in force at that read (`HState.run`); (c) *evaluation-point classes* (`frdevalw`,
+and the `pp` / `om` variants of `lti` / `ltifr`): an FRD (built from data with a sorted, unsorted
+or duplicate-carrying frequency list, from `frd(sys, omega)`, or interpolating) evaluated by
+`F.eval` / `F(x)` / `evalfr` at points given as *values*: repeated, descending, permuted, empty,
+missing, 2-D, off-axis, as array / list / tuple / scalar / 0-d array; `sys(x)` of tf / ss at
+repeated and non-ascending points; `frequency_response` with an unsorted / repeated frequency
+list.  The model (`RespFRD.evalAt`) looks every requested value up in the stored list; the
+frequency axis of the result must follow the requested points."""
 import itertools
 import math
 import re
@@ -64,7 +71,8 @@ def classify_exc(e):
     if isinstance(e, ValueError) and not isinstance(e, IndexError):
         low = msg.lower()
         if "unknown squeeze value" in low or "can't determine" in low or "does not match data" in low \
-                or "input list must be 1d" in low:
+                or "input list must be 1d" in low or "purely imaginary frequencies" in low \
+                or "real-valued frequencies" in low:
             return "badArg"
         if "unknown signal name" in low:
             return "unknownName"
@@ -399,6 +407,100 @@ def fsys(form, p, m):
 
 
 FREQS = {1: [1.0], 2: [0.5, 2.0], 3: [0.5, 1.0, 2.0]}
+# frequency values by id (distinct, exactly representable; ids 0..2 are the stored frequencies of
+# fsys("frd", ...)): the model compares ids, the implementation the values
+FV = [0.5, 1.0, 2.0, 4.0, 0.25, 8.0, 3.0, 16.0]
+
+
+def freqs_of(c):
+    """the frequency list handed to frequency_response: FREQS[N], or the values of the ids
+    c["om"] in the order given (unsorted / repeated lists)"""
+    if c.get("om") is not None:
+        return [FV[i] for i in c["om"]]
+    return FREQS[c["N"]]
+
+
+def pointwise_ok(sysd, pts, full, tol=1e-9):
+    """full[:, :, k] is the scalar evaluation sysd(pts[k]) for every k (the frequency axis follows
+    the points, in the order given, repeats included); 1e-9 relative: the two are the same
+    arithmetic up to vectorisation"""
+    full = np.asarray(full)
+    if full.ndim != 3 or full.shape[2] != len(pts):
+        return False
+    for k, x in enumerate(pts):
+        v = np.asarray(sysd(complex(x), squeeze=False))
+        if v.shape != full.shape[:2]:
+            return False
+        if not np.all(np.abs(v - full[:, :, k]) <= tol * np.maximum(1.0, np.abs(v))):
+            return False
+    return True
+
+
+def evalw_stored(c):
+    """ids of the stored frequency list of the FRD of an `frdevalw` case, as the object holds
+    them: frd(sys, omega) sorts, so does the generator for an interpolating FRD"""
+    if c["src"] == "data":
+        return list(c["stored"])
+    return sorted(c["stored"], key=lambda i: FV[i])
+
+
+def evalw_frd(c):
+    key = ("w", c["src"], c["p"], c["m"], tuple(c["stored"]))
+    if key not in _SYS:
+        vals = [FV[i] for i in c["stored"]]
+        if c["src"] in ("ss", "tf"):
+            _SYS[key] = ct.frd(fsys(c["src"], c["p"], c["m"]), vals)
+        else:
+            vals = [FV[i] for i in evalw_stored(c)]
+            _SYS[key] = ct.frd(fsynth((c["p"], c["m"], len(vals))), vals, smooth=(c["src"] == "smooth"))
+    return _SYS[key]
+
+
+def evalw_arg(c):
+    """the `omega` (F.eval) resp. `x` (F(x), evalfr) argument of an `frdevalw` case"""
+    vals = [FV[i] for i in c["req"]]
+    off, last = c.get("off", 0), len(vals) - 1
+    if c["via"] == "eval":
+        pts = [complex(v, 1.0) if (off and k == last) else v for k, v in enumerate(vals)]
+        dtype = complex if off else float
+    else:
+        pts = [complex(0.5 if (off and k == last) else 0.0, v) for k, v in enumerate(vals)]
+        dtype = complex
+    osh, cont = c["oshape"], c["cont"]
+    if osh == []:
+        if cont == "np":
+            return np.float64(pts[0]) if dtype is float else np.complex128(pts[0])
+        if cont == "0d":
+            return np.array(pts[0])
+        return pts[0]
+    if len(osh) == 1:
+        if cont == "list":
+            return list(pts)
+        if cont == "tuple":
+            return tuple(pts)
+        return np.array(pts, dtype=dtype)
+    a = np.array(pts, dtype=dtype).reshape(osh)
+    return a.tolist() if cont == "list" else a
+
+
+def req_class(c):
+    st, req = evalw_stored(c), c["req"]
+    if len(c["oshape"]) > 1:
+        return "2d"
+    if c.get("off"):
+        return "offaxis"
+    if any(i not in st for i in req):
+        return "missing"
+    if c["oshape"] == []:
+        return "scalar"
+    if not req:
+        return "empty"
+    pos = [st.index(i) for i in req]
+    if len(set(req)) < len(req):
+        return "repeated"
+    if pos != sorted(pos):
+        return "unsorted"
+    return "sorted-unique"
 
 
 def frd_observe(F):
@@ -669,7 +771,14 @@ class C18(Family):
             "histories on one response object (structured: read all, change squeeze by copy / attribute "
             "/ package default, read all on copy and original, change back, read; random: 4-12 steps of "
             "single / subset / full reads, copies, attribute assignments of squeeze, transpose, return_x, "
-            "return_magphase, package default changes) for time and frequency responses.  Every case is "
+            "return_magphase, package default changes) for time and frequency responses; evaluation-point "
+            "classes: FRDs (data with sorted / unsorted / duplicate-carrying frequency lists, frd(sys, "
+            "omega), interpolating) evaluated by F.eval / F(x) / evalfr at points given as values - "
+            "scalar, ascending, repeated, descending, permuted, random with repeats (from rng), empty, "
+            "not stored, 2-D, off the axis; as array / list / tuple / scalar / 0-d array - the model looks "
+            "every value up in the stored list; sys(x) of tf / ss at repeated / non-ascending points and "
+            "frequency_response with unsorted / repeated frequency lists, each also compared point by "
+            "point with scalar evaluations.  Every case is "
             "non-trivial when some array has more than one entry; distinct = distinct canonical case")
 
     # ---- generation ------------------------------------------------------------------
@@ -1067,9 +1176,92 @@ class C18(Family):
                     cases.append({"kind": kind, "base": b2, "steps": self.random_hist(rng, freq)})
         return cases
 
+    # ---- evaluation points: repeated / non-ascending / missing / empty / 2-D ----------------------
+    def gen_evalpts(self, rng, tier):
+        """F.eval / F(x) / evalfr(F, x) at points given as values, and the same point classes for
+        sys(x) of tf / ss (`lti` with "pp") and for frequency_response (`ltifr` with "om")"""
+        full = tier == "thorough"
+        cases = []
+        sqs = [("N", "N"), ("T", "N"), ("F", "N"), ("N", "T"), ("N", "F"), ("T", "F"), ("F", "T")]
+        stored = [("data", [0, 1, 2]), ("data", [2, 0, 1]), ("data", [1, 1, 3]), ("data", [3, 0, 3, 1]),
+                  ("data", [0, 1, 2, 3]), ("data", [5]), ("data", [4, 0]),
+                  ("ss", [0, 1, 2]), ("tf", [0, 1, 2, 3]), ("ss", [2, 0, 1]), ("tf", [1, 1, 0]),
+                  ("smooth", [0, 1, 2]), ("smooth", [4, 0, 1, 2, 3]), ("smooth", [1, 3])]
+
+        def requests(src, st):
+            """(oshape, req, off, container) of every point class for the stored ids st"""
+            uniq = [i for k, i in enumerate(st) if i not in st[:k]]
+            asc = sorted(uniq, key=lambda i: FV[i])
+            other = [i for i in range(len(FV)) if i not in st]
+            out = []
+            for i in (uniq[0], uniq[-1]):
+                out.append(([], [i], 0, rng.choice(["py", "np", "0d"])))              # scalar
+            cont = lambda: rng.choice(["array", "array", "list", "tuple"])
+            out.append(([len(asc)], list(asc), 0, cont()))                             # all, ascending
+            out.append(([1], [rng.choice(uniq)], 0, cont()))                           # one-element list
+            a, b = asc[0], asc[-1]
+            out.append(([3], [a, a, b], 0, cont()))                                    # repeated
+            out.append(([2], [b, b], 0, cont()))
+            out.append(([len(asc)], list(reversed(asc)), 0, cont()))                   # descending
+            for _ in range(3 if full else 2):                                          # any order, repeats
+                k = rng.randint(2, len(uniq) + 2)
+                out.append(([k], [rng.choice(uniq) for _ in range(k)], 0, cont()))
+            if len(uniq) > 2:
+                q = list(asc)
+                rng.shuffle(q)
+                out.append(([len(q)], q, 0, cont()))                                   # permutation
+            out.append(([0], [], 0, cont()))                                           # no point
+            if src != "smooth":                                                        # not stored
+                out.append(([], [other[0]], 0, "py"))
+                out.append(([3], [a, other[1], a], 0, cont()))
+            out.append(([2, 2], [a, b, b, a], 0, rng.choice(["array", "list"])))       # 2-D
+            out.append(([1, 2], [a, b], 0, "array"))
+            out.append(([2], [b, a], 1, cont()))                                       # off the axis
+            out.append(([], [a], 1, "py"))
+            return out
+
+        for src, st in stored:
+            for (osh, req, off, cont) in requests(src, st):
+                for via in ("eval", "call", "evalfr"):
+                    pms = list(itertools.product((1, 2), (1, 2)))
+                    if full:
+                        combos = [(pm, sq) for pm in pms for sq in sqs]
+                        if src != "data" or len(osh) != 1 or off:
+                            combos = rng.sample(combos, 6)
+                    else:
+                        combos = [(rng.choice(pms), rng.choice(sqs))]
+                        if len(osh) == 1 and not off and src != "smooth":
+                            combos.append(((1, 1), rng.choice(sqs[:3])))
+                    for (p, m), (a, cf) in combos:
+                        cases.append({"kind": "frdevalw", "src": src, "p": p, "m": m, "stored": st,
+                                      "oshape": osh, "req": req, "off": off, "cont": cont, "via": via,
+                                      "sq": a, "cfgsq": cf})
+        cases.append({"kind": "frdevalw", "src": "data", "p": 2, "m": 1, "stored": [0, 1, 2], "oshape": [3],
+                      "req": [1, 1, 0], "off": 0, "cont": "array", "via": "eval", "sq": "N", "cfgsq": "X"})
+        # sys(x) of tf / ss at repeated / non-ascending points
+        for form in ("tf", "ss"):
+            for p, m in itertools.product((1, 2), (1, 2)):
+                for pp in ([0, 0], [1, 0], [2, 0, 2, 1], [0, 1, 1], [3, 2, 1, 0]):
+                    for (a, cf) in (sqs if full else rng.sample(sqs, 2)):
+                        cases.append({"kind": "lti", "form": form, "p": p, "m": m, "xs": [len(pp)], "pp": pp,
+                                      "sq": a, "cfgsq": cf, "via": rng.choice(["call", "evalfr"])})
+        # frequency_response with an unsorted / repeated frequency list (the result is sorted)
+        for form in ("tf", "ss", "frd"):
+            for p, m in itertools.product((1, 2), (1, 2)):
+                for om in ([1, 0], [2, 1, 0], [1, 1], [0, 2, 2], [2, 0, 1, 0]):
+                    routes = [("N", "N", None), ("T", "N", None), ("F", "N", None), ("N", "T", None),
+                              ("N", "N", "F")]
+                    for (a, cf, k) in (routes if full else rng.sample(routes, 2)):
+                        call = None if k is None else {"sq": k, "rm": None}
+                        cases.append({"kind": "ltifr", "form": form, "p": p, "m": m, "N": len(om), "om": om,
+                                      "sq": a, "cfgsq": cf, "call": call,
+                                      "via": rng.choice(["method", "func"])})
+        return cases
+
     def generate(self, rng, tier):
         return (self.gen_time(rng, tier) + self.gen_ctor(rng, tier) + self.gen_freq(rng, tier)
-                + self.gen_keys(rng, tier) + self.gen_lists(rng, tier) + self.gen_hist(rng, tier))
+                + self.gen_keys(rng, tier) + self.gen_lists(rng, tier) + self.gen_hist(rng, tier)
+                + self.gen_evalpts(rng, tier))
 
     def corpus(self):
         t = lambda **kw: dict({"kind": "trd", "fn": "step", "p": 1, "m": 1, "n": 2, "T": 3, "inp": None,
@@ -1098,6 +1290,14 @@ class C18(Family):
              "steps": [["R", 0, list(TOBS)], ["C", 0, "T", None, 1], ["R", 1, list(TOBS)], ["R", 0, ["outputs"]],
                        ["S", 0, "F"], ["R", 0, ["outputs", "states", "inputs", "iter", "get1"]], ["S", 0, "N"],
                        ["G", "T", "set"], ["R", 0, ["outputs", "states", "inputs"]]]},
+            # an FRD evaluated at a repeated point / at descending points (frequency axis follows
+            # the points requested, not the stored list)
+            {"kind": "frdevalw", "src": "data", "p": 1, "m": 1, "stored": [0, 1, 2], "oshape": [3],
+             "req": [1, 1, 2], "off": 0, "cont": "array", "via": "call", "sq": "N", "cfgsq": "N"},
+            {"kind": "frdevalw", "src": "ss", "p": 2, "m": 1, "stored": [0, 1, 2], "oshape": [2],
+             "req": [2, 0], "off": 0, "cont": "list", "via": "eval", "sq": "F", "cfgsq": "N"},
+            {"kind": "ltifr", "form": "frd", "p": 1, "m": 1, "N": 2, "om": [1, 1], "sq": "N", "cfgsq": "N",
+             "call": None, "via": "method"},
         ]
 
     # ---- driver lines -------------------------------------------------------------------
@@ -1152,6 +1352,11 @@ class C18(Family):
         if k == "frdeval":
             return "c18 frdeval 3 %d %d 3 1 3 %d %s %d %s %s" % (
                 c["p"], c["m"], len(c["ks"]), " ".join(map(str, c["ks"])), c["scalar"], c["sq"], c["cfgsq"])
+        if k == "frdevalw":
+            st = evalw_stored(c)
+            return "c18 frdevalw 3 %d %d %d %s %s %s %d %s %s" % (
+                c["p"], c["m"], len(st), self.shp(st), self.shp(c["oshape"]), self.shp(c["req"]),
+                c.get("off", 0), c["sq"], c["cfgsq"])
         if k == "trdlist":
             return "c18 trdlist %s %d %s %d %s %s %d %s %d %s %s" % (
                 c["fn"], len(c["sysl"]), " ".join("%d %d %d" % (p, m, n) for (_, p, m, n) in c["sysl"]),
@@ -1193,7 +1398,7 @@ class C18(Family):
 
     def make_fr(self, c):
         sysd = fsys(c["form"], c["p"], c["m"])
-        om = FREQS[c["N"]]
+        om = freqs_of(c)
         kw = {} if c["sq"] == "N" else {"squeeze": SQV[c["sq"]]}
         if c["via"] == "method":
             F = sysd.frequency_response(om, **kw)
@@ -1253,26 +1458,34 @@ class C18(Family):
             return {"ok": obs}
         if k == "ltifr":
             sysd = fsys(c["form"], c["p"], c["m"])
-            om = np.array(FREQS[c["N"]])
-            ref = sysd(1j * om, squeeze=False)
+            om = np.sort(np.array(freqs_of(c)))         # "omega: ... will be sorted before evaluation"
             with Config(**{CFG_KEYS[1]: SQV[c["cfgsq"]]}):
                 F = self.make_fr(c)
                 obs = frd_observe(F)
+            ref = sysd(1j * om, squeeze=False)
             obs["ref"] = [ctok(v) for v in np.asarray(ref).reshape(-1).tolist()]
+            if c.get("om") is not None:
+                # an unsorted / repeated list: the stored frequencies are the sorted ones, one per
+                # requested frequency, and column k is the response at the k-th of them
+                obs["omega_expected"] = [tok(fr(w)) for w in om.tolist()]
+                obs["pointwise"] = pointwise_ok(sysd, 1j * om, F.frdata)
             return {"ok": obs}
         if k == "lti":
             sysd = fsys(c["form"], c["p"], c["m"])
             xs = c["xs"]
             n = int(np.prod(xs)) if xs else 1
             pts = (np.arange(n, dtype=float) * 0.5 + 0.5) * 1j + 0.25
+            if c.get("pp") is not None:       # repeated / non-ascending points
+                pts = ((np.arange(4, dtype=float) * 0.5 + 0.5) * 1j + 0.25)[c["pp"]]
             x = pts.reshape(xs) if xs else complex(pts[0])
-            ref = None
+            ref, pw = None, True
             if len(xs) <= 1:
                 ref = sysd(pts, squeeze=False)
+                pw = pointwise_ok(sysd, pts, ref)
             with Config(**{CFG_KEYS[1]: SQV[c["cfgsq"]]}):
                 kw = {} if c["sq"] == "N" else {"squeeze": SQV[c["sq"]]}
                 v = sysd(x, **kw) if c["via"] == "call" else ct.evalfr(sysd, x, **kw)
-            return {"ok": {"val": arr_canon(v),
+            return {"ok": {"val": arr_canon(v), "pointwise": pw,
                            "ref": None if ref is None else [ctok(z) for z in np.asarray(ref).reshape(-1).tolist()]}}
         if k == "frdeval":
             F = fsys("frd", c["p"], c["m"])
@@ -1282,6 +1495,20 @@ class C18(Family):
                 kw = {} if c["sq"] == "N" else {"squeeze": SQV[c["sq"]]}
                 v = F.eval(arg, **kw) if c["via"] == "eval" else F(1j * arg, **kw)
             return {"ok": {"val": arr_canon(v),
+                           "ref": [ctok(z) for z in F.frdata.reshape(-1).tolist()]}}
+        if k == "frdevalw":
+            F = evalw_frd(c)
+            arg = evalw_arg(c)
+            with Config(**{CFG_KEYS[1]: SQV[c["cfgsq"]]}):
+                kw = {} if c["sq"] == "N" else {"squeeze": SQV[c["sq"]]}
+                if c["via"] == "eval":
+                    v = F.eval(arg, **kw)
+                elif c["via"] == "call":
+                    v = F(arg, **kw)
+                else:
+                    v = ct.evalfr(F, arg, **kw)
+            return {"ok": {"val": arr_canon(v), "omega": [tok(fr(w)) for w in np.asarray(F.omega).tolist()],
+                           "rawshape": [int(d) for d in F.frdata.shape],
                            "ref": [ctok(z) for z in F.frdata.reshape(-1).tolist()]}}
         if k == "trdlist":
             refs = [time_reference(elem_case(c, i)) for i in range(len(c["sysl"]))]
@@ -1389,7 +1616,7 @@ class C18(Family):
             return parse_trd(out)
         if k in ("frd", "ltifr"):
             return parse_frd(out)
-        if k in ("lti", "frdeval"):
+        if k in ("lti", "frdeval", "frdevalw"):
             return parse_arr_line(out)
         if k in ("trdlist", "frlist"):
             segs = split_bar(out)
@@ -1437,7 +1664,13 @@ class C18(Family):
             f["route"] = ("cfg" if c["cfgsq"] != "N" else "") + ("arg" if c["sq"] != "N" else "") + \
                 ("attr" if (c.get("call") or {}).get("sq") else "") or "default"
             f["tr"] = c["tr"] or int(bool((c.get("call") or {}).get("tr")))
-        if c["kind"] in ("ltifr", "frd", "lti", "frdeval", "frlist"):
+        if c["kind"] == "frdevalw":
+            f.update({"pts": req_class(c), "via": c["via"], "src": c["src"]})
+        if c["kind"] == "lti" and c.get("pp") is not None:
+            f["pts"] = "repeated/unsorted"
+        if c["kind"] == "ltifr" and c.get("om") is not None:
+            f.update({"pts": "repeated/unsorted", "form": c["form"]})
+        if c["kind"] in ("ltifr", "frd", "lti", "frdeval", "frdevalw", "frlist"):
             f["route"] = ("cfg" if c["cfgsq"] != "N" else "") + ("arg" if c["sq"] != "N" else "") + \
                 ("attr" if (c.get("call") or {}).get("sq") not in (None, "N") else "") or "default"
         return f
@@ -1470,7 +1703,12 @@ class C18(Family):
             ref = o["ref"]
             if ref is None:
                 raise Mismatch("returns", "call", "2-D point accepted", DIFFERS)
+            if not o.get("pointwise", True):
+                raise Mismatch("data", "pointwise", "sys(x, squeeze=False)[:, :, k] is not sys(x[k]) for the "
+                               "1-D array of points x")
             cmp_arr("value", o["val"], model, lambda p: ref[p])
+        elif k == "frdevalw":
+            self.cmp_evalw(c, o, model)
         elif k == "key":
             self.cmp_key(c, o, model)
         elif k in ("trdlist", "frlist"):
@@ -1479,6 +1717,42 @@ class C18(Family):
             self.cmp_hist(c, o, model)
         elif k == "histf":
             self.cmp_histf(c, o, model)
+
+    def cmp_evalw(self, c, o, model):
+        st = evalw_stored(c)
+        if o["omega"] != [tok(fr(FV[i])) for i in st] or o["rawshape"] != [c["p"], c["m"], len(st)]:
+            raise Mismatch("rawshape", "omega", "the FRD stores omega %s, data shape %s; expected the "
+                           "frequencies %s" % (o["omega"], o["rawshape"], [FV[i] for i in st]), DIFFERS)
+        ref = o["ref"]
+        if c["src"] != "smooth" and len(set(st)) == len(st):
+            cmp_arr("value", o["val"], model, lambda p: ref[p])
+            return
+        if c["src"] != "smooth":
+            # a stored list that carries a frequency twice: which of the equal-frequency columns is
+            # returned is not part of the property (the code and the model take the first); accept
+            # any of them, at the place of the requested point
+            cmp_arr("value", dict(o["val"], data=[]) if "shape" in o["val"] else o["val"],
+                    dict(model, pos=[]) if "shape" in model else model, lambda p: ref[p])
+            if "shape" not in model:
+                return
+            N = len(st)
+            for t, p in zip(o["val"]["data"], model["pos"]):
+                row, q = divmod(p, N)
+                if t not in [ref[row * N + q2] for q2 in range(N) if st[q2] == st[q]]:
+                    raise Mismatch("data", "value", "entries %s, expected %s" % (
+                        o["val"]["data"][:12], [ref[p] for p in model["pos"]][:12]))
+            if len(o["val"]["data"]) != len(model["pos"]):
+                raise Mismatch("data", "value", "%d entries, expected %d" % (len(o["val"]["data"]), len(model["pos"])))
+            return
+        # interpolating FRD: the interpolant passes through the stored points (1e-9 relative)
+        cmp_arr("value", dict(o["val"], data=[]) if "shape" in o["val"] else o["val"],
+                dict(model, pos=[]) if "shape" in model else model, lambda p: ref[p])
+        if "shape" not in model:
+            return
+        exp = [cplx_of(ref[p]) for p in model["pos"]]
+        got = [cplx_of(t) for t in o["val"]["data"]]
+        if len(exp) != len(got) or any(abs(a - b) > 1e-9 * max(1.0, abs(b)) for a, b in zip(got, exp)):
+            raise Mismatch("data", "value", "entries %s, expected %s" % (got[:8], exp[:8]))
 
     def cmp_list(self, c, o, model):
         want = "TimeResponseList" if c["kind"] == "trdlist" else "FrequencyResponseList"
@@ -1625,6 +1899,11 @@ class C18(Family):
             raise Mismatch("values-depend-on-settings", "frdata", "stored data differ from sys(x, squeeze=False)")
         if o["omega"]["shape"] != [model["nomega"]]:
             raise Mismatch("shape", "omega", "omega shape %s" % o["omega"]["shape"])
+        if o.get("omega_expected") is not None and o["omega"]["data"] != o["omega_expected"]:
+            raise Mismatch("data", "omega", "stored frequencies %s, expected the sorted request %s" % (
+                o["omega"]["data"], o["omega_expected"]))
+        if not o.get("pointwise", True):
+            raise Mismatch("data", "pointwise", "frdata[:, :, k] is not sys(1j * omega[k])")
         lookup = lambda p: ref[p]
 
         def item(name, a, b):
@@ -1693,8 +1972,12 @@ class C18(Family):
             st["squeeze"] = "%s/%s/%s" % (c["sq"], c["cfgsq"], (c.get("call") or {}).get("sq"))
             if isinstance(model["outputs"], dict) and "shape" in model["outputs"]:
                 st["out_ndim"] = len(model["outputs"]["shape"])
-        if c["kind"] in ("frd", "ltifr", "lti", "frdeval", "frlist"):
+        if c["kind"] in ("frd", "ltifr", "lti", "frdeval", "frdevalw", "frlist"):
             st["squeeze"] = "%s/%s" % (c["sq"], c["cfgsq"])
+        if c["kind"] == "frdevalw":
+            st.update({"pts": req_class(c), "src": c["src"], "via": c["via"], "container": c["cont"]})
+        if c.get("pp") is not None or c.get("om") is not None:
+            st["pts"] = "repeated/unsorted"
         if c["kind"] == "trdlist":
             st["fn"] = c["fn"]
             st["nsys"] = len(c["sysl"])
@@ -1733,6 +2016,17 @@ class C18(Family):
                         continue
                     yield d
 
+        elif c["kind"] == "frdevalw":
+            if len(c["oshape"]) == 1:
+                for i in range(len(c["req"])):            # drop a point
+                    r = c["req"][:i] + c["req"][i + 1:]
+                    yield dict(c, req=r, oshape=[len(r)])
+            for key, val in (("cfgsq", "N"), ("sq", "N"), ("p", 1), ("m", 1), ("via", "eval"),
+                             ("cont", "array" if len(c["oshape"]) else "py"), ("src", "data")):
+                if c.get(key) != val:
+                    if key == "src" and c["src"] == "smooth":
+                        continue
+                    yield dict(c, **{key: val})
         elif c["kind"] in ("trdlist", "frlist"):
             if len(c["sysl"]) > 1:
                 for i in range(len(c["sysl"])):
